@@ -435,51 +435,103 @@ def rule_PF1(ctx, rep):
             rep.bad('PF1', call, g, f'values produced by `{norm(e)[:80]}` are not reduced modulo the bound: outputs can fall outside range(bound)')
     if nprod < 2:
         raise AnalysisError('PF1: alternatives for the produced values not found in PRF.__call__')
-    # count: 1 if n is None else n ; shape -> prod(shape)
+    # count: 1 if n is None else n ; shape -> prod(shape)  (decided on the cases of the count expression and their conditions)
+    from . import cond
     npar = call.params[2]
+    none_atom = cond.formula(call, ast.parse(f'{npar} is None', mode='eval').body, call.node.body[-1], pm)
+    none_txt = cond.fmt(none_atom)
+
+    def none_state(f):
+        """True: n is None on this path, False: it is not, None: the path condition does not say"""
+        if not cond.satisfiable(cond.conj([f, cond.neg(none_atom)])):
+            return True
+        if not cond.satisfiable(cond.conj([f, none_atom])):
+            return False
+        return None
     cnts = [c for c in ast.walk(call.node) if isinstance(c, ast.Call) and attr_tail(c.func) == 'range' and len(c.args) == 1]
     good = False
     for c in cnts:
-        gv = sem.guarded_values(call, c.args[0], c, pm)
-        vals = {(tuple(sorted(x for x in cx if x[0] in (f'None is {npar}', f'{npar} is None'))), norm(v)) for cx, v in gv}
-        want = {(((f'None is {npar}', True),), '1'), (((f'None is {npar}', False),), npar)}
-        want2 = {(((f'{npar} is None', True),), '1'), (((f'{npar} is None', False),), npar)}
-        if vals in (want, want2):
+        cases = cond.expr_cases(call, c.args[0], c, pm, keep=(npar,))
+        vals, okc = set(), True
+        for f, v in cases:
+            st_ = none_state(cond.project(f, lambda a: a == none_txt))
+            if st_ is not True and isinstance(v, ast.Call) and attr_tail(v.func) == 'prod' and len(v.args) == 1 \
+                    and any(isinstance(x_, ast.Name) and x_.id == npar for x_ in ast.walk(sem.expand(call, v.args[0], c, pm))):
+                continue                      # a shape: the number of entries of the array
+            vals.add((st_, norm(v)))
+        if vals == {(True, '1'), (False, npar)}:
             good = True
-    shp = any(isinstance(s_, ast.Assign) and norm(s_.targets[0]) == npar and isinstance(s_.value, ast.Call) and attr_tail(s_.value.func) == 'prod' for s_ in iter_nodes(call.node))
+    shp = any(v_ is not None and isinstance(v_, ast.Call) and attr_tail(v_.func) == 'prod' for _st, v_, _how in definitions(call.node, npar))
     if good and shp:
         rep.ok('PF1', call, cnts[0], 'exactly n values (1 for n=None, prod(shape) for a shape)')
     else:
         rep.bad('PF1', call, call.qualname, 'the number of produced values is not "1 if n is None else n" / prod(shape)', call.node)
+    # a single value exactly when n is None (then the first element of what is returned otherwise); returns whose condition does not
+    # depend on `n is None` are the array case (n was replaced by prod(shape) there)
     rets = [r for r in iter_nodes(call.node) if isinstance(r, ast.Return) and r.value is not None]
-    rv = set()
+    scal, seq = [], []
     for r in rets:
-        for cx, v in sem.guarded_values(call, r.value, r, pm, ctx=sem._ctx_of(call, r, pm), follow=False):
-            rv.add((tuple(sorted(x for x in cx if 'None' in x[0] and npar in x[0])), norm(v)))
-    scal = [v for k, v in rv if k and k[0][1] is True]
-    seq = [v for k, v in rv if k and k[0][1] is False]
-    # a single value exactly when n is None (then the first element of what is returned otherwise); returns that do not depend on
-    # `n is None` at all are the array case (n was replaced by prod(shape) there)
+        for g, v in cond.expr_cases(call, r.value, r, pm, keep=tuple(x.id for x in ast.walk(r.value) if isinstance(x, ast.Name))):
+            f = cond.project(cond.conj([cond.context(call, r, pm), g]), lambda a: a == none_txt)
+            if not cond.satisfiable(f):
+                continue
+            st_ = none_state(f)
+            if st_ is True:
+                scal.append(norm(v))
+            elif st_ is False:
+                seq.append(norm(v))
     if scal and seq and all(any(sv == f'{qv}[0]' for qv in seq) for sv in scal) and not any(qv.endswith('[0]') for qv in seq):
         rep.ok('PF1', call, rets[-1], 'scalar for n=None, sequence/array otherwise')
     else:
         rep.bad('PF1', call, rets[-1] if rets else call.qualname, f'return value is not `x[0] if {npar} is None else x`', call.node)
-    # __init__: byte length covers bound-1, extra key-length bytes exactly for non powers of two
-    bl = [s for s in iter_nodes(init.node) if isinstance(s, ast.Assign) and norm(s.targets[0]) == 'self.byte_length']
-    # the statement adding the extra bytes, and the condition under which it runs (nesting, polarity, early return alike)
-    ex = [x for x in iter_nodes(init.node) if isinstance(x, ast.AugAssign) and isinstance(x.op, ast.Add) and norm(x.target) == 'self.byte_length']
-    b = init.params[2]
-    if bl and norm(bl[0].value) == f'(({b} - 1).bit_length() + 7) // 8':
-        rep.ok('PF1', init, bl[0], 'digest block covers the bit length of bound-1')
-    else:
-        rep.bad('PF1', init, bl[0] if bl else init.qualname, 'block length does not cover (bound-1).bit_length() bits', init.node)
-    from . import cond
+    # __init__: the block length stored in self.byte_length, as cases with conditions (attribute or local accumulation alike):
+    # ((bound-1).bit_length() + 7) // 8 for powers of two, that plus len(key) otherwise (exact integer test bound & (bound - 1))
     pmi = parents(init.node)
-    want = cond.formula(init, ast.parse(f'{b} & {b} - 1', mode='eval').body, ex[0], pmi) if ex else None
-    if len(ex) == 1 and cond.equivalent(cond.context(init, ex[0], pmi), want):
-        rep.ok('PF1', init, ex[0], 'extra bytes (statistical closeness) exactly for bounds that are not powers of two (exact integer test)')
+    b = init.params[2]
+    kpar = init.params[1]
+    base_txt = f'(({b} - 1).bit_length() + 7) // 8'
+    final = None
+    for s_ in sorted([x for x in iter_nodes(init.node) if isinstance(x, (ast.Assign, ast.AugAssign))
+                      and norm(x.targets[0] if isinstance(x, ast.Assign) else x.target) == 'self.byte_length'], key=astq.position):
+        cx = cond.context(init, s_, pmi)
+        vals = [(cond.conj([cx, f]), v) for f, v in cond.expr_cases(init, s_.value, s_, pmi, keep=(b, kpar))]
+        if isinstance(s_, ast.Assign):
+            prev = [(cond.conj([f0, cond.neg(cx)]), v0) for f0, v0 in (final or []) if cond.satisfiable(cond.conj([f0, cond.neg(cx)]))]
+            final = prev + vals
+        elif isinstance(s_.op, ast.Add) and final is not None:
+            nxt = []
+            for f0, v0 in final:
+                for f1, v1 in vals:
+                    if cond.satisfiable(cond.conj([f0, f1])):
+                        nxt.append((cond.conj([f0, f1]), ast.BinOp(left=v0, op=ast.Add(), right=v1)))
+                if cond.satisfiable(cond.conj([f0, cond.neg(cx)])):
+                    nxt.append((cond.conj([f0, cond.neg(cx)]), v0))
+            final = nxt
+        else:
+            final = None
+            break
+    want = cond.formula(init, ast.parse(f'{b} & {b} - 1', mode='eval').body, init.node.body[-1], pmi)
+
+    def shape_of(v):
+        """'base' | 'base+key' | None for a block-length expression"""
+        t = norm(v).replace(f'len(self.key)', 'len(KEY)').replace(f'len({kpar})', 'len(KEY)')
+        if t == base_txt:
+            return 'base'
+        if t in (f'{base_txt} + len(KEY)', f'len(KEY) + {base_txt}'):
+            return 'base+key'
+        return None
+    site = [x for x in iter_nodes(init.node) if isinstance(x, (ast.Assign, ast.AugAssign)) and 'byte_length' in norm(x.targets[0] if isinstance(x, ast.Assign) else x.target)]
+    if final and all(shape_of(v) is not None for _f, v in final):
+        rep.ok('PF1', init, site[0], 'digest block covers the bit length of bound-1')
     else:
-        rep.bad('PF1', init, ex[0] if ex else init.qualname, 'the power-of-two test for the bound is not the exact `bound & (bound - 1)`', init.node)
+        rep.bad('PF1', init, site[0] if site else init.qualname, 'block length does not cover (bound-1).bit_length() bits', init.node)
+    exact = bool(final) and all((shape_of(v) == 'base+key' and not cond.satisfiable(cond.conj([f, cond.neg(want)])))
+                                or (shape_of(v) == 'base' and not cond.satisfiable(cond.conj([f, want]))) for f, v in final) \
+        and any(shape_of(v) == 'base+key' for _f, v in final)
+    if exact:
+        rep.ok('PF1', init, site[-1], 'extra bytes (statistical closeness) exactly for bounds that are not powers of two (exact integer test)')
+    else:
+        rep.bad('PF1', init, site[-1] if site else init.qualname, 'the power-of-two test for the bound is not the exact `bound & (bound - 1)`', init.node)
 
 
 # ---------------------------------------------------------------------------------- G1
@@ -522,7 +574,14 @@ def rule_G1(ctx, rep):
         exps = set()
         for r in iter_nodes(fn.node):
             if isinstance(r, ast.Call) and (attr_tail(r.func) == 'repeat' or (isinstance(r.func, ast.Name) and r.func.id == 'map' and r.args and attr_tail(r.args[0]) == 'repeat')):
-                exps |= {n_.id for a_ in r.args[1:] for n_ in ast.walk(a_) if isinstance(n_, ast.Name)}
+                nm_ = {n_.id for a_ in r.args[1:] for n_ in ast.walk(a_) if isinstance(n_, ast.Name)}
+                exps |= nm_
+                # an exponent enumerated / zipped from a list: that list holds the exponents
+                for b_ in routes._context(fn, r, pm)[0]:
+                    for x_ in b_.names():
+                        src_ = b_.src_of(x_)
+                        if x_ in nm_ and src_ is not None:
+                            exps |= {n_.id for n_ in ast.walk(src_) if isinstance(n_, ast.Name)}
 
         def root(t):
             while isinstance(t, ast.Subscript):
